@@ -118,7 +118,7 @@ abbrev R := State × List Out
 
 /-- sequencing: run `f` on the state reached, outputs concatenated. -/
 def R.andThen (r : R) (f : State → R) : R := ((f r.1).1, r.2 ++ (f r.1).2)
-infixl:55 " >>> " => R.andThen
+infixl:55 " ⊳ " => R.andThen
 
 /-! ## what the code raises (tied to /repo by the correspondence) -/
 
@@ -164,11 +164,11 @@ def closeConn (s : State) : R :=
   | none => (s, [])
 
 /-- `Peer._close`. -/
-def closeP (s : State) : R := apiDown s >>> fsmTo .idle >>> closeConn
+def closeP (s : State) : R := apiDown s ⊳ fsmTo .idle ⊳ closeConn
 
 /-- `Peer._reset`. -/
 def resetP (s : State) : R :=
-  closeP s >>> fun s => if s.restart then ({ s with teardown := none, refreshQ := 0 }, []) else (s, [])
+  closeP s ⊳ fun (s : State) => if s.restart then ({ s with teardown := none, refreshQ := 0 }, []) else (s, [])
 
 /-- `_run` returns; `run()` loops or ends. -/
 def finish (s : State) : R := ({ s with pc := if s.restart then .backoff else .done }, [])
@@ -181,7 +181,7 @@ def canReconnect (s : State) : Bool := s.cfg.maxAttempts == 0 || s.attempts < s.
 def stopIfExhausted (s : State) : R := if canReconnect s then (s, []) else stopP s
 
 /-- `except NetworkError` and `except Notification` of `_run` (same structure). -/
-def onNetErr (s : State) : R := stopIfExhausted s >>> resetP >>> finish
+def onNetErr (s : State) : R := stopIfExhausted s ⊳ resetP ⊳ finish
 
 def markSent (k : Kind) (c : Conn) : Conn :=
   match k with
@@ -198,10 +198,10 @@ def sendOn (k : Kind) (s : State) : R × Bool :=
 
 /-- `except Notify` of `_run`: tell the peer on whatever `self.proto` is now, reset. -/
 def onNotify (code sub : Nat) (s : State) : R :=
-  (sendOn (.notification code sub) s).1 >>> resetP >>> stopIfExhausted >>> finish
+  (sendOn (.notification code sub) s).1 ⊳ resetP ⊳ stopIfExhausted ⊳ finish
 
 /-- `except Interrupted` / `except Exception` of `_run`. -/
-def onOther (s : State) : R := resetP s >>> finish
+def onOther (s : State) : R := resetP s ⊳ finish
 
 def connId (s : State) : Nat := match s.conn with | some c => c.id | none => 0
 
@@ -210,19 +210,19 @@ def afterConnect (s : State) : R :=
   let r := fsmTo .connect s
   let w := sendOn .open r.1
   let r' : R := (w.1.1, r.2 ++ w.1.2)
-  if w.2 then r' >>> fsmTo .opensent >>> fun s => setPc (.awaitOpen (connId s)) s
-  else r' >>> onNetErr
+  if w.2 then r' ⊳ fsmTo .opensent ⊳ fun (s : State) => setPc (.awaitOpen (connId s)) s
+  else r' ⊳ onNetErr
 
 /-- `_establish` from `self.fsm.change(FSM.IDLE)`. -/
 def establish2 (s : State) : R :=
-  fsmTo .idle s >>> fun s =>
+  fsmTo .idle s ⊳ fun (s : State) =>
     match s.conn with
     | none => ({ s with attempts := s.attempts + 1, pc := .connecting }, [])
     | some _ => afterConnect s
 
 /-- `_run` is entered. -/
 def beginRun (s : State) : R :=
-  fsmTo .active s >>> fun s =>
+  fsmTo .active s ⊳ fun (s : State) =>
     if s.cfg.passive ∧ s.conn = none then setPc .passiveWait s else establish2 s
 
 /-- `_main` prologue. -/
@@ -234,14 +234,14 @@ def enterMain (c : Nat) (s : State) : R :=
 /-- the outbound half of one main-loop iteration. -/
 def mainSends (s : State) : R :=
   (if s.refreshQ > 0 then (sendOn .refresh { s with refreshQ := s.refreshQ - 1 }).1 else (s, []))
-  >>> (fun s => if s.routesPending then (sendOn .update { s with routesPending := false }).1 else (s, []))
-  >>> (fun s => if s.eorPending then (sendOn .eor { s with eorPending := false }).1 else (s, []))
+  ⊳ (fun (s : State) => if s.routesPending then (sendOn .update { s with routesPending := false }).1 else (s, []))
+  ⊳ (fun (s : State) => if s.eorPending then (sendOn .eor { s with eorPending := false }).1 else (s, []))
 
 /-- the end of an iteration: `while not self._teardown` … `raise Notify(6, self._teardown)`. -/
 def mainExit (s : State) : R :=
   match s.teardown with
   | none => (s, [])
-  | some code => if s.cfg.graceful then closeP s >>> onNetErr else onNotify 6 code s
+  | some code => if s.cfg.graceful then closeP s ⊳ onNetErr else onNotify 6 code s
 
 /-- one iteration of the `_main` loop on the current connection; `none` = the read timed out. -/
 def mainIter (m : Option Msg) (s : State) : R :=
@@ -254,22 +254,22 @@ def mainIter (m : Option Msg) (s : State) : R :=
     else
       let s1 := if s.cfg.hold0 ∧ m = some .keepalive then { s with kaSeen := true } else s
       let s2 := if m = some .refresh then { s1 with routesPending := s1.routesPending || s1.ribNonEmpty } else s1
-      mainSends s2 >>> mainExit
+      mainSends s2 ⊳ mainExit
 
 /-- an iteration of the `_main` loop when `peer.proto` is no longer the connection it reads
     (`_stop` dropped it, `handle_connection` adopted another one): the read times out, the
     outbound half runs on the adopted connection, on which nothing was negotiated. -/
 def staleIter (s : State) : R :=
   (if s.refreshQ > 0 then (sendOn .refresh { s with refreshQ := s.refreshQ - 1 }).1 else (s, []))
-  >>> (fun s => ({ s with routesPending := false }, []))
-  >>> (fun s => if s.eorPending then (sendOn .keepalive { s with eorPending := false }).1 else (s, []))
-  >>> (fun s => match s.teardown with
+  ⊳ (fun (s : State) => ({ s with routesPending := false }, []))
+  ⊳ (fun (s : State) => if s.eorPending then (sendOn .keepalive { s with eorPending := false }).1 else (s, []))
+  ⊳ (fun (s : State) => match s.teardown with
         | none => (s, [])
         | some code => if s.cfg.graceful then onOther s else onNotify 6 code s)
 
 def sendKa (c : Nat) (s : State) : R :=
   let w := sendOn .keepalive s
-  if w.2 then w.1 >>> setPc (.awaitKa c) else w.1 >>> onNetErr
+  if w.2 then w.1 ⊳ setPc (.awaitKa c) else w.1 ⊳ onNetErr
 
 def markConn (f : Conn → Conn) (s : State) : State :=
   match s.conn with
@@ -285,7 +285,7 @@ def deliver (m : Msg) (s : State) : R :=
     | .operational => onNotify 1 0 s
     | .notification => onNetErr s
     | .openOk low =>
-      fsmTo .openconfirm (markConn (fun k => { k with idLow := low, openRecv := true }) s) >>> sendKa c
+      fsmTo .openconfirm (markConn (fun (k : Conn) => { k with idLow := low, openRecv := true }) s) ⊳ sendKa c
     | .openSem e => onNotify (semCode e).1 (semCode e).2 s
     | _ => onNotify 5 1 s
   | .awaitKa c =>
@@ -293,7 +293,7 @@ def deliver (m : Msg) (s : State) : R :=
     | .bad f => onNotify (raised f).1 (raised f).2 s
     | .operational => onNotify 1 0 s
     | .notification => onNetErr s
-    | .keepalive => fsmTo .established (markConn (fun k => { k with kaRecv := true }) s) >>> enterMain c
+    | .keepalive => fsmTo .established (markConn (fun (k : Conn) => { k with kaRecv := true }) s) ⊳ enterMain c
     | _ => onNotify 5 2 s
   | .mainLoop _ => mainIter (some m) s
   | _ => (s, [])
@@ -304,7 +304,7 @@ def awaited (s : State) : Option Nat :=
   | _ => none
 
 /-- the read fails (EOF, reset): the connection closes itself, `NetworkError`. -/
-def readErr (s : State) : R := closeConn s >>> onNetErr
+def readErr (s : State) : R := closeConn s ⊳ onNetErr
 
 /-- let the coroutine consume what its connection has for it. -/
 def advance : Nat → State → R
@@ -314,7 +314,7 @@ def advance : Nat → State → R
     | some c, some k =>
       if k.id = c then
         match k.inbox with
-        | m :: rest => deliver m { s with conn := some { k with inbox := rest } } >>> advance n
+        | m :: rest => deliver m { s with conn := some { k with inbox := rest } } ⊳ advance n
         | [] => if k.rst ∨ k.eof then readErr s else (s, [])
       else (s, [])
     | _, _ => (s, [])
@@ -334,8 +334,8 @@ def handleConnection (s : State) : R :=
   if refuse then (s, [.reject id, .close id])
   else
     (if s.conn.isSome then closeP s else (s, []))
-    >>> (fun s => ({ s with conn := some { id := id } }, []))
-    >>> (fun s => if s.pc = .passiveWait then establish2 s else (s, []))
+    ⊳ (fun (s : State) => ({ s with conn := some { id := id } }, []))
+    ⊳ (fun (s : State) => if s.pc = .passiveWait then establish2 s else (s, []))
 
 /-- the effect of one event before the coroutine looks at its input again. -/
 def react (s : State) : Event → R
@@ -345,10 +345,10 @@ def react (s : State) : Event → R
     if s.pc = .connecting then
       let id := s.nextId
       let o : List Out := match s.conn with | some old => [.close old.id] | none => []
-      (({ s with conn := some { id := id }, nextId := id + 1 }, o) : R) >>> afterConnect
+      (({ s with conn := some { id := id }, nextId := id + 1 }, o) : R) ⊳ afterConnect
     else (s, [])
   | .connectFail =>
-    if s.pc = .connecting then (if s.conn.isSome then closeP s else (s, [])) >>> onOther else (s, [])
+    if s.pc = .connecting then (if s.conn.isSome then closeP s else (s, [])) ⊳ onOther else (s, [])
   | .incoming => handleConnection s
   | .recv c m =>
     match s.conn with
@@ -381,18 +381,18 @@ def react (s : State) : Event → R
     | _ => (s, [])
   | .teardown code => ({ s with teardown := some code, restart := true }, [])
   | .reestablish => ({ s with teardown := some 3, restart := true }, [])
-  | .stop => (if s.conn.isSome then closeP s else (s, [])) >>> stopP
+  | .stop => (if s.conn.isSome then closeP s else (s, [])) ⊳ stopP
   | .queueRefresh => ({ s with refreshQ := s.refreshQ + 1 }, [])
   | .announce =>
     ({ s with ribNonEmpty := true,
               routesPending := (match s.pc with | .mainLoop _ => true | _ => s.routesPending) }, [])
 
-def step (s : State) (e : Event) : R := react s e >>> fun s => advance (fuelOf s) s
+def step (s : State) (e : Event) : R := react s e ⊳ fun (s : State) => advance (fuelOf s) s
 
 /-- all events in order; the trace is the concatenation of what each step put out. -/
 def run (s : State) : List Event → R
   | [] => (s, [])
-  | e :: es => step s e >>> fun s => run s es
+  | e :: es => step s e ⊳ fun (s : State) => run s es
 
 /-- per-event buckets (what the driver prints). -/
 def runBuckets (s : State) : List Event → State × List (List Out)
